@@ -98,6 +98,26 @@ func genC13(e *emitter, r *rng, thorough bool) {
 			e.emit("enc.extreme", "b58.enc "+hx(b2))
 		}
 	}
+	// well-formed multi-byte UTF-8 sequences inside an otherwise valid string (a decoder that walks runes
+	// instead of bytes maps U+0141 to 'A'): every 2-byte code point, a sample of 3- and 4-byte ones
+	{
+		pre, post := randB58(r, 3), randB58(r, 2)
+		emitU := func(class string, cp rune) {
+			enc := []byte(string(cp))
+			e.emit(class, "b58.dec "+hx(append(append(append([]byte{}, pre...), enc...), post...)))
+			e.emit(class, "b58.dec "+hx(enc))
+			e.emit(class+".check", "b58.cdec "+hx(append(append(append([]byte{}, pre...), enc...), post...)))
+		}
+		for cp := rune(0x80); cp < 0x800; cp++ {
+			if !thorough && cp%3 != 0 && (cp&0xff) != 0x41 && (cp&0xff) != 0x7a {
+				continue
+			}
+			emitU("dec.utf8-2", cp)
+		}
+		for _, cp := range []rune{0x0841, 0x1031, 0x2031, 0x20ac, 0xfffd, 0xff41, 0x10041, 0x1f600, 0x10ffff} {
+			emitU("dec.utf8-34", cp)
+		}
+	}
 	// every byte value at every position of a valid string
 	base := randB58(r, 12)
 	for pos := 0; pos < len(base); pos++ {
